@@ -14,7 +14,7 @@
      setp.CMP.type               eq ne: SetEq SetNe;  lt le gt ge on .u / lo ls hi hs: SetLt SetLe SetGt SetGe;
                                  lt le gt ge on .s: SetLtS SetLeS SetGtS SetGeS (m, x, y)
      selp d,x,y,p                Sel(p,x,y);  every @p-predicated write: Sel(p, new, old);  @!p: Sel(NotP(p), new, old)
-     and or xor (.pred .b32 .b64) BAnd BOr BXor;   not.bNN: NotB(m,x);  not.pred: NotP(p);  neg.sNN: Neg(m,x)
+     and or xor .b32 .b64        BAnd BOr BXor;   on .pred: B1(0|1|2, p, q);   not.bNN: NotB(m,x);  not.pred: NotP(p);  neg.sNN: Neg(m,x)
      shl / shr.u,.b / shr.s      Shl(m,x,n) / Shr(m,x,n) / ShrS(m,x,n)   n a 32-bit amount, clamped to the width
      min max .u / .s             MinU MaxU (x,y) / MinS MaxS (m,x,y)
      cvt.u64.u32 / .s64.s32 / to 32 bit     ZExt(x) / SExt(x) / Lo(x);  same-size cvt and mov: the value itself
